@@ -82,6 +82,16 @@ package libp2p
 //@ spec func pubsubAuthor(m ref) peer.ID
 //@ assume func github.com/libp2p/go-libp2p-pubsub.Message.GetFrom
 //@   ensures result == @pubsubAuthor(recv)
+// The factory registered for a message type is the caller's factory itself, so
+// every incoming message is decoded into a container of its own.
+//@ ghost lastTypeTag string
+//@ func channel.SetUnmarshaler
+//@   property C18
+//@   opt noframe 1
+//@   opt lock-no-havoc 1
+//@   modifies ghost.lastTypeTag
+//@   yields ghost.lastTypeTag = tpe
+//@   ensures [the-registered-factory-is-the-callers-factory-itself] (ghost.lastTypeTag in c.unmarshalersByType) && c.unmarshalersByType[ghost.lastTypeTag] == unmarshaler
 //@ func channel.processPubsubMessage
 //@   property C18
 //@   opt noframe 1
